@@ -8,7 +8,7 @@ From Coq Require Import List Arith String.
 From Coq Require Import Lia.
 Require Import P.ParseModel P.ParseGrammar P.ParseProof P.ParsePrintModel P.ParsePrint P.ParseDecl P.ParseDeclGrammar P.ParseDeclProof P.ParseInterp P.ParseInterpProof P.ParseUsed P.ParseUsedProof P.ParseHeader P.ParseHeaderProof P.ParseBody P.ParseBodyProof.
 From Coq Require ZArith Permutation.
-Require R.DModel3 R.DProofs4 Inst.DeriveInst G.GlueAll G.DeclShape.
+Require R.DModel3 R.DProofs4 Inst.DeriveInst G.GlueAll G.DeclShape G.DeclShapeProof.
 Theorem parse_complete : forall t rest, wf t -> stop rest -> next_type (S (depth t)) (lex t ++ rest) = Ok (Some (embed t)) rest.
 Proof. exact ParseProof.parse_complete. Qed.
 (* what the templates consume of an `Option<X>` field: the base name and the wrapped type *)
@@ -250,6 +250,10 @@ Theorem declared_type_obeys_C01 : forall fuel (e: DeclShape.env) (d: data) (sh: 
   forall (ko: bool) (iter_order: list (BinNums.Z * DModel3.value) -> list (BinNums.Z * DModel3.value)), (forall m, Permutation.Permutation (iter_order m) m) ->
   forall a b, DProofs4.wt_s sh a -> DProofs4.wt_s sh b -> DProofs4.R_s true sh a b (GlueAll.Apply iter_order sh a (GlueAll.Diff ko iter_order sh a b)).
 Proof. intros fuel e d sh _ ko io Hp a b Ha Hb. exact (GlueAll.C01_closed ko io Hp sh a b Ha Hb). Qed.
+(* (i') a declaration that gets a shape is one the templates accept: whenever shape_of answers for a struct, no template panics on it
+   (the model of the generated type definitions answers too) *)
+Theorem shaped_declarations_expand : forall fuel e s sh, DeclShape.shape_of fuel e (DStruct s) = Some sh -> exists td, struct_defs s = Some td.
+Proof. exact DeclShapeProof.shaped_declarations_expand. Qed.
 (* non-vacuity: the example declaration above states four requirements (T: Clone, T: Default, Vec<T>: Clone, Vec<T>: 'a), and its impl header is
    the one rustc sees. The two known gaps of the struct templates as the model shows them: ParseHeaderProof.d21_where_item_not_on_the_enum (finding D21:
    a where-clause item a field type needs is not repeated on the diff enums) and d19_bound_mentions_undeclared (finding D19). *)
@@ -289,3 +293,4 @@ Print Assumptions plain_payload.
 Print Assumptions struct_expansion_end_to_end.
 Print Assumptions declared_type_obeys_C01.
 Print Assumptions alias_names_injective.
+Print Assumptions shaped_declarations_expand.
